@@ -1,10 +1,10 @@
-"""Discharging obligations: engine-side instantiation of quantified hypotheses, theory
-saturation, z3 (rlimit, deterministic) first, SMT-LIB dump to the CLI solvers for unknowns."""
+"""Discharging obligations: engine-side instantiation of quantified hypotheses, definitional
+unfolding of spec functions (joinr, strip), free-monoid saturation; z3 (rlimit, deterministic)
+first, SMT-LIB dump to the CLI solvers for unknowns.  All queries are quantifier-free."""
 from __future__ import annotations
 
 import os
 import subprocess
-import tempfile
 import time
 
 import z3
@@ -13,131 +13,133 @@ from .sx_base import GenError, Obligation
 from .theory import Int
 from .values import FAll, FAnd, FImp, FT, F
 
-RLIMIT = int(os.environ.get("VF_RLIMIT", "40000000"))
-MAX_CANDS = 24
+RLIMIT = int(os.environ.get("VF_RLIMIT", "60000000"))
+CAND_STEPS = (10, 40)
+
+from .theory import analyze_all
 
 
-def _int_candidates(terms, limit=200):
-    """Int-sorted terms that occur as array indices or as arguments of uninterpreted functions."""
-    seen, out, outset = set(), [], set()
-    stack = list(terms)
-    while stack:
-        t = stack.pop()
-        i = t.get_id()
-        if i in seen:
-            continue
-        seen.add(i)
-        if z3.is_quantifier(t):
-            continue
-        if not z3.is_app(t):
-            continue
-        ch = t.children()
-        stack.extend(ch)
-        k = t.decl().kind()
-        cand = []
-        if k == z3.Z3_OP_SELECT or k == z3.Z3_OP_STORE:
-            cand.append(ch[1])
-        elif k == z3.Z3_OP_UNINTERPRETED and ch:
-            cand.extend(c for c in ch if c.sort().eq(Int))
-        for c in cand:
-            c = z3.simplify(c)
-            if _has_var(c):
-                continue
-            if c.get_id() not in outset and len(out) < limit:
-                outset.add(c.get_id())
-                out.append(c)
-    return out
+_inst_cache: dict = {}
 
 
-def _has_var(t):
-    stack = [t]
-    while stack:
-        x = stack.pop()
-        if z3.is_var(x):
-            return True
-        if z3.is_app(x):
-            stack.extend(x.children())
-        elif z3.is_quantifier(x):
-            return True
-    return False
+def _instance(ex, h, c):
+    """ground instance of hypothesis h at c; memoised"""
+    key = (id(h), c.get_id())
+    hit = _inst_cache.get(key)
+    if hit is not None:
+        return hit[2], hit[3]
+    collector = []
+    saved = ex.pc
+    ex.pc = collector
+    try:
+        body = h.body(c)
+        t = _to_term(ex, body)
+    except GenError:
+        t = None
+    finally:
+        ex.pc = saved
+    if t is not None:
+        rng = z3.And(ex.z(h.lo) <= c, c < ex.z(h.hi))
+        t = z3.Implies(rng, t)
+    _inst_cache[key] = (h, c, t, collector)
+    return t, collector
 
 
-def instantiate(ob: Obligation, ex, rounds=2):
-    """Ground instances of the quantified hypotheses at the index terms occurring in the VC."""
-    facts = []
-    base = list(ob.pc) + [ob.goal]
-    done = set()
-    for rnd in range(rounds):
-        cands = _int_candidates(base + facts)
-        # prefer small terms
-        cands.sort(key=lambda c: (len(str(c)), str(c)))
-        cands = cands[:MAX_CANDS]
-        new = []
-        for hi, h in enumerate(ob.hyps):
-            for c in cands:
-                key = (hi, c.get_id())
-                if key in done:
-                    continue
-                done.add(key)
-                collector = []
-                saved = ex.pc
-                ex.pc = collector
-                try:
-                    body = h.body(c)
-                    t = _to_term(ex, body, new, collector)
-                except GenError:
-                    t = None
-                finally:
-                    ex.pc = saved
-                if t is None:
-                    continue
-                rng = z3.And(ex.z(h.lo) <= c, c < ex.z(h.hi))
-                new.append(z3.Implies(rng, t))
-                new.extend(collector)
-        if not new:
-            break
-        facts.extend(new)
-    return facts
-
-
-def _to_term(ex, f, extra, collector):
+def _to_term(ex, f):
     t = ex.f_to_term(f)
     if t is not None:
         return t
     # nested quantifier inside a hypothesis body: keep only the quantifier-free conjuncts
     if isinstance(f, FAnd):
-        ts = [_to_term(ex, p, extra, collector) for p in f.parts]
+        ts = [_to_term(ex, p) for p in f.parts]
         ts = [x for x in ts if x is not None]
         return z3.And(*ts) if ts else None
     if isinstance(f, FImp):
         a = ex.f_to_term(f.a)
-        b = _to_term(ex, f.b, extra, collector)
+        b = _to_term(ex, f.b)
         if a is not None and b is not None:
             return z3.Implies(a, b)
     return None
 
 
-def build_query(ob: Obligation, ex):
-    inst = instantiate(ob, ex) if ob.hyps else []
+def candidates(terms, th, limit):
+    return analyze_all(terms, th).cands[:limit]
+
+
+def definitional(ex, th, terms, depth=2):
+    """Unfolding / stability facts for every joinr and strip application in `terms` (closure to `depth`)."""
+    facts = []
+    done = set()
+    frontier = analyze_all(terms, th).special
+    for level in range(depth):
+        new_terms = []
+        for app in frontier:
+            if app.get_id() in done:
+                continue
+            done.add(app.get_id())
+            fs = ex.unfold(app)
+            facts.extend(fs)
+            new_terms.extend(fs)
+        if not new_terms:
+            break
+        frontier = [x for x in analyze_all(new_terms, th).special if x.get_id() not in done]
+    return facts
+
+
+def build_query(ob: Obligation, ex, ncands=40, rounds=2):
+    th = ob.theory
+    base = [ob.goal] + list(reversed(ob.pc))
+    inst = []
+    if ob.hyps and ncands:
+        done = set()
+        for rnd in range(rounds):
+            cands = candidates(base + inst, th, ncands)
+            new = []
+            for hi, h in enumerate(ob.hyps):
+                for c in cands:
+                    key = (hi, c.get_id())
+                    if key in done:
+                        continue
+                    done.add(key)
+                    t, extra = _instance(ex, h, c)
+                    if t is not None:
+                        new.append(t)
+                        new.extend(extra)
+            if not new:
+                break
+            inst.extend(new)
     core = list(ob.pc) + inst
-    sat_facts = ob.theory.saturate(core + [ob.goal])
-    return core + sat_facts, ob.goal
+    defs = definitional(ex, th, core + [ob.goal])
+    core += defs
+    sat_facts = th.saturate(core + [ob.goal])
+    seen, facts = set(), []
+    for f in core + sat_facts:
+        if f.get_id() not in seen:
+            seen.add(f.get_id())
+            facts.append(f)
+    return facts, ob.goal
 
 
 def discharge(ob: Obligation, ex, rlimit=RLIMIT):
     t0 = time.time()
+    r = None
+    s = None
+    steps = CAND_STEPS if ob.hyps else (0,)
     try:
-        facts, goal = build_query(ob, ex)
+        for n in steps:
+            facts, goal = build_query(ob, ex, ncands=n)
+            s = z3.Solver()
+            s.set("rlimit", rlimit)
+            s.set("random_seed", 7)
+            for f in facts:
+                s.add(f)
+            s.add(z3.Not(goal))
+            r = s.check()
+            if r == z3.unsat:
+                break
     except GenError as e:
         ob.status, ob.backend, ob.model, ob.time = "error", "vf", str(e), time.time() - t0
         return ob
-    s = z3.Solver()
-    s.set("rlimit", rlimit)
-    s.set("random_seed", 7)
-    for f in facts:
-        s.add(f)
-    s.add(z3.Not(goal))
-    r = s.check()
     ob.backend = "z3-%s" % z3.get_version_string()
     if r == z3.unsat:
         ob.status = "discharged"
@@ -150,7 +152,6 @@ def discharge(ob: Obligation, ex, rlimit=RLIMIT):
     else:
         ob.status = "unknown"
         ob.model = s.reason_unknown()
-        # second opinion from the CLI solvers on the SMT-LIB dump
         smt = s.to_smt2()
         for name, cmd in (("z3-4.8.12", ["/usr/bin/z3", "-T:20", "-in"]),
                           ("cvc5", ["/usr/bin/cvc5", "--lang=smt2", "--tlimit=20000", "--strings-exp"])):
@@ -167,6 +168,55 @@ def discharge(ob: Obligation, ex, rlimit=RLIMIT):
                 break
     ob.time = time.time() - t0
     return ob
+
+
+def discharge_all(obligations, rlimit=RLIMIT, shard=0, nshards=1):
+    """Discharge a unit's obligations, sharing instantiation and solver state between obligations that
+    were emitted at the same program point of the same path (same path condition and hypotheses).
+    With nshards > 1 only every nshards-th group is handled (the others keep status None)."""
+    groups = {}
+    for ob in obligations:
+        key = (id(ob.detail), ob.base_len, len(ob.hyps))
+        groups.setdefault(key, []).append(ob)
+    for gi, obs in enumerate(groups.values()):
+        if gi % nshards != shard:
+            continue
+        if len(obs) == 1:
+            discharge(obs[0], obs[0].detail, rlimit)
+        else:
+            _discharge_group(obs, rlimit)
+    return obligations
+
+
+def _discharge_group(obs, rlimit):
+    ex = obs[0].detail
+    th = obs[0].theory
+    t0 = time.time()
+    base_pc = obs[0].pc[:obs[0].base_len]
+    goals = [z3.Implies(z3.And(*o.extra), o.goal) if o.extra else o.goal for o in obs]
+    pseudo = Obligation(pc=list(base_pc), hyps=obs[0].hyps, goal=z3.And(*goals), theory=th, base_len=len(base_pc), extra=[])
+    try:
+        facts, _ = build_query(pseudo, ex, ncands=CAND_STEPS[0] + 2 * len(obs))
+    except GenError:
+        for o in obs:
+            discharge(o, ex, rlimit)
+        return
+    s = z3.Solver()
+    s.set("rlimit", rlimit)
+    s.set("random_seed", 7)
+    for f in facts:
+        s.add(f)
+    per = (time.time() - t0) / len(obs)
+    for o, g in zip(obs, goals):
+        t1 = time.time()
+        s.push()
+        s.add(z3.Not(g))
+        r = s.check()
+        s.pop()
+        if r == z3.unsat:
+            o.status, o.backend, o.time = "discharged", "z3-%s" % z3.get_version_string(), per + time.time() - t1
+        else:
+            discharge(o, ex, rlimit)     # full individual treatment (more instances, model, fallbacks)
 
 
 def smtlib(ob: Obligation, ex):
